@@ -11,7 +11,7 @@ CONSTANTS
   Stale = FALSE
   Outcomes = {"sent", "wip", "ref", "hc"}
   MppRetry = {0, 1}
-  Bug = "forget_wip"
+  Bug = "drop_hc"
 CONSTRAINT Bound
 VIEW View
 INVARIANT NeverBoth
